@@ -448,6 +448,26 @@ local function wrapargs1(n)
   local w = coroutine.wrap(function(p, ...) return select('#', ...) + (p and 1 or 0) end)
   return w(unpack(mkt(n)))
 end
+local function wrapsweep(from)
+  -- every argument count in a window, tried inside a fresh coroutine (whose registry starts at its initial size):
+  -- one of the counts ends exactly where the allocated registry ends
+  local sweep = coroutine.wrap(function()
+    local good = 0
+    local function fwd(...) return coroutine.wrap(function(...) return select('#', ...) end)(...) end
+    local function fwd1(pad, ...) return coroutine.wrap(function(...) return select('#', ...) end)(...) end
+    for n = from, from + 110 do
+      local w = coroutine.wrap(function(...) return select('#', ...) end)
+      if w(unpack(mkt(n))) == n then good = good + 1 end
+      local w1 = coroutine.wrap(function(p, ...) return select('#', ...) end)
+      if n == 0 or w1(unpack(mkt(n))) == n - 1 then good = good + 1 end
+      -- the arguments forwarded as ... (the vararg instruction reserves exactly what it copies)
+      if fwd(unpack(mkt(n))) == n then good = good + 1 end
+      if fwd1(0, unpack(mkt(n))) == n then good = good + 1 end
+    end
+    return good
+  end)
+  return sweep()
+end
 local function threegen()
   local C
   local A = coroutine.create(function()
@@ -496,7 +516,9 @@ func (e *Engine) demandProgram(t *core.Tape) (string, int) {
 	maxArg := 0
 	for i := 0; i < n; i++ {
 		id := fmt.Sprintf("d%d", i)
-		switch t.Choose(26) {
+		switch t.Choose(27) {
+		case 26:
+			fmt.Fprintf(&sb, "run(%q, wrapsweep, %d)\n", id, t.Choose(40))
 		case 24:
 			fmt.Fprintf(&sb, "run(%q, wrapargs, %d)\n", id, t.Choose(140))
 		case 25:
